@@ -1,0 +1,14 @@
+//go:build verif && unix && !tinygo
+
+package go9p
+
+// VerifUfsFidPath returns the host path a Ufs fid designates ("" if none).
+func VerifUfsFidPath(f *SrvFid) string {
+	if f == nil || f.Aux == nil {
+		return ""
+	}
+	if u, ok := f.Aux.(*ufsFid); ok {
+		return u.path
+	}
+	return ""
+}
